@@ -30,7 +30,7 @@ RULE = ("one evaluation = one seeded scenario: a directed graph of basin referen
         "identifies its provider (unique values per dataset, feature and event). non-trivial = graph with >=1 edge, >=1 read or "
         "listing judged; distinct = distinct event-log digests")
 STATE_MEASURE = "distinct (graph shape class, root format, fault kind, call site in {open, listing, read, close}) tuples; schedule choices are part of the digest"
-PROBES = ["cycle_in_graph", "self_reference", "mapped_edge_followed", "nonmatching_edge_present", "remote_edge_from_remote_root",
+PROBES = ["read_repeated_after_transient_hdf5_fault", "cycle_in_graph", "self_reference", "mapped_edge_followed", "nonmatching_edge_present", "remote_edge_from_remote_root",
           "file_edge_under_remote_root", "checker_ran_as_thread", "checker_never_ran", "scheduler_switched", "line_preemption",
           "host_down_during_listing", "host_healed_then_offered", "origin_deleted", "dcor_root", "s3_root", "http_root",
           "value_from_depth_2", "keyerror_for_unavailable", "missing_identifier", "remote_typed_local_path", "flaky_host", "path_component_too_long",
@@ -167,6 +167,8 @@ class World:
         schedmod.install_basin_threads(self.sched, mode=self.k["checker"])
         self.local_opens = []
         self.install_open_recorder()
+        from dst import faultfs
+        self.rseam = faultfs.ReadFaultSeam().install()
         self.deleted = set()
         self.ds = None
         self.ds_fmt = None
@@ -393,7 +395,12 @@ class World:
             if declared and r.random() < 0.5:
                 # what the root's basin definitions declare (whether or not the origin may be used)
                 feat = r.choice(declared)
-            return {"k": "read", "feat": feat, "how": r.choice(["all", "idx", "slice"]), "i": r.randrange(1 << 16)}
+            op = {"k": "read", "feat": feat, "how": r.choice(["all", "idx", "slice"]), "i": r.randrange(1 << 16)}
+            if r.random() < 0.3:
+                # one read of an HDF5 object fails (OSError / interrupt) in a first attempt; the caller repeats the access
+                op["fail_first"] = {"at": r.choice([0, 0, 0, 1, 1, 2, 3, 5, 8, 13, 21]), "kind": r.choice(["err", "err", "intr"]),
+                                    "only": r.choice([None, "basinmap", "basinmap", "/events/", "ds."])}
+            return op
         if x < 0.94:
             return {"k": "close"}
         return {"k": "heal"}
@@ -586,7 +593,30 @@ class World:
 
         def rd():
             return np.atleast_1d(np.asarray(ds[f][sel], dtype=float))
-        ok, res = self.guarded("C14.read.raises", rd, allow=(KeyError,), sig={"site": "read"})
+        fault_fired = False
+        ff = op.get("fail_first")
+        seam = getattr(self, "rseam", None)
+        if ff and seam is not None:
+            seam.arm(ff["at"], ff["kind"], only=ff.get("only"))
+            first_exc = None
+            try:
+                with warnings.catch_warnings():
+                    warnings.simplefilter("ignore")
+                    rd()
+            except (schedmod.DeadlockError, schedmod.StepBudgetExceeded, RecursionError, SystemExit):
+                seam.disarm()
+                raise
+            except BaseException as e_:  # noqa: B036 (KeyboardInterrupt is one of the injected kinds)
+                if type(e_).__name__ == "StopRun":
+                    seam.disarm()
+                    raise
+                first_exc = e_
+            fault_fired = seam.disarm()
+            ctx.log("c", f"first attempt {f} {op['how']}", f"fired={fault_fired} raised={type(first_exc).__name__ if first_exc is not None else None}")
+            if fault_fired:
+                ctx.fault("hdf5_read_" + ff["kind"])
+                ctx.probe("read_repeated_after_transient_hdf5_fault")
+        ok, res = self.guarded("C14.read.raises", rd, allow=(KeyError,) if not fault_fired else (KeyError, OSError), sig={"site": "read"})
         ctx.checked()
         ctx.state_ops += 1
         root = self.k["root"] % len(self.nodes)
@@ -597,7 +627,7 @@ class World:
             ctx.probe("keyerror_for_unavailable")
             # bounded liveness in the fault-free class: an acceptable provider in an acyclic, all-local-or-up world must be reachable
             strict_provs = self.providers(root, self.ds_fmt if self.ds_fmt != "dcor" else "http", f, strict=True)
-            if not self.faulted and strict_provs and not self.cyclic() and not self.deleted and not self.has_missing_rid():
+            if not self.faulted and not fault_fired and strict_provs and not self.cyclic() and not self.deleted and not self.has_missing_rid():
                 ctx.violation("C14.liveness", f"feature {f} has a permitted, matching provider (dataset {provs[0][0]}) but reading raises KeyError",
                               sig={"root_fmt": self.ds_fmt})
             ctx.log("c", f"read {f} {op['how']}", "KeyError")
